@@ -69,6 +69,26 @@ def build(s, nodes=None):
     return n
 
 
+def build_expression(s, nodes, pick):
+    """real EXPRESSION objects for a shape: two children -> a binary operator, one child -> a unary
+    operator holding its operand on that side, no child -> a leaf; pick(k) chooses among k kinds"""
+    if s is None:
+        return None
+    l = build_expression(s[1], nodes, pick)
+    r = build_expression(s[2], nodes, pick)
+    if l is not None and r is not None:
+        cls = [X.AddExpression, X.MultiplyExpression, X.SubtractExpression, X.DivideExpression, X.PowerExpression][pick(5)]
+        n = cls(l, r)
+    elif r is not None:
+        n = [X.NegateExpression, X.SgnExpression, X.FactorialExpression][pick(3)](r)
+    elif l is not None:
+        n = [X.NegateExpression, X.FactorialExpression][pick(2)](l, child_on_left=True)
+    else:
+        n = X.VariableExpression("xyz"[pick(3)]) if pick(2) else X.ConstantExpression(pick(9) + 1)
+    nodes[s[0]] = n
+    return n
+
+
 def order(s, kind, d=0):
     if s is None:
         return []
@@ -447,10 +467,27 @@ def c15(ctx):
     shs = all_shapes(6 if quick else 8)
     drv = core.Driver()
     lines, meta, bad = [], [], []
-    for s, dup_ids in [(s, False) for s in shs] + [(s, True) for s in all_shapes(5 if quick else 7)]:
+    pick_rng = random.Random(ctx.seed * 3 + 151)
+    variants = [(s, False, False) for s in shs] + [(s, True, False) for s in all_shapes(5 if quick else 7)]
+    # the same rotations on trees of the real EXPRESSION classes (unary nodes included: negation,
+    # sgn, factorial with the operand on either side), whose setters may be overridden
+    variants += [(s, False, True) for s in all_shapes(6 if quick else 7)]
+    ctx.notes["rotation_variants"] = {"plain": len(shs), "duplicate_ids": len(all_shapes(5 if quick else 7)),
+                                      "expression_classes": len(all_shapes(6 if quick else 7))}
+    for s, dup_ids, as_expr in variants:
         for i in ids_of(s):
             nodes = {}
-            root = build(s, nodes)
+            if as_expr:
+                try:
+                    root = build_expression(s, nodes, lambda k: pick_rng.randrange(k))
+                except Exception:  # noqa
+                    continue
+            else:
+                root = build(s, nodes)
+            try:
+                text_before = str(root) if as_expr else False
+            except Exception:  # noqa
+                text_before = "?"
             if dup_ids:
                 # node ids are not unique in real trees (clone() copies them): identity must decide
                 for o in nodes.values():
@@ -485,7 +522,8 @@ def c15(ctx):
                 if g is not None and i not in (cells[g][0], cells[g][1]):
                     probs.append("grandparent does not point at the rotated node")
             if probs:
-                bad.append({"shape": shape_wire(s), "node": i, "problems": probs, "duplicate_id_strings": dup_ids})
+                bad.append({"shape": shape_wire(s), "node": i, "problems": probs, "duplicate_id_strings": dup_ids,
+                            "expression_classes": text_before})
             lines.append(f"rotate {i} {shape_wire(s)}")
             meta.append((s, i, after_shape, cells))
     ans = drv.ask(lines)
